@@ -21,10 +21,12 @@ META = {
             "special-relative-or-authority, relative slash, authority with last-'@' split, host classes, port) with a "
             "three-valued verdict.  TLC checks six model-sanity invariants exhaustively at small bounds and enumerates "
             "every string over the delimiter alphabet up to the length bound (flat strings, tails behind scheme://, "
-            "paths behind '/', one-token neighbours of realistic seeds) for both roles (return_to x allowlist config, "
+            "paths behind '/', one-token neighbours of realistic seeds, leading-run, host look-alike, authority-shape "
+            "(userinfo x host x port x continuation) and IPv6-literal families) for both roles (return_to x allowlist config, "
             "original URL x service prefix).  Every string is concretised (several spellings per token) and fed to the "
             "real _validate_return_to / _validate_original_url; accepted and sampled strings are driven through the "
-            "real PKCE middleware fast path and the full 401 -> IdP -> callback flow of make_wsgi_app with a stub IdP; "
+            "real PKCE middleware fast path, the logout redirect and the full 401 -> IdP -> callback flow of make_wsgi_app "
+            "with a stub IdP (all five Location-emitting sites of _oauth_pkce.py; the IdP one is only checked to be the IdP); "
             "TLC judges every observation with the ONE-SIDED Url!Conforms (flag only accept AND definite foreign "
             "origin).  Cookie half: TLC enumerates mutation x age x state x flow; the driver mutates every byte of a "
             "server-minted session cookie, moves the module clock, and TLC judges with Url!CookieConforms.",
